@@ -182,7 +182,7 @@ def covering_instance(rng, nmax=10, family=None):
     """(C, vals, family) with positive values (items larger than C allowed)"""
     fams = ["random", "thresholds", "allsmall", "allbig", "oversize", "toosmall", "planted", "scalednoise"]
     family = family or rng.choice(fams)
-    C = rng.choice([6, 9, 10, 12, 20, 30, 60, 100, 1000])
+    C = rng.choice([6, 7, 9, 9, 10, 12, 15, 20, 21, 25, 30, 60, 99, 100, 1000, 1001])     # odd sizes too: C/2 and C/3 are then not integers
     n = rng.randint(1, nmax)
     if family == "scalednoise":
         C0, v0, _ = covering_instance(rng, nmax=nmax, family=rng.choice(["planted", "thresholds", "random"]))
